@@ -575,7 +575,7 @@ theorem clientInv_step (s s' : Side) (inW inW' out : List Msg) (l : Lab)
 /-- the three kinds of steps of a side, with what the flag layer needs -/
 theorem stepSide_flags (s s' : Side) (inW inW' out : List Msg) (l : Lab)
     (h : stepSide s inW l = some (s', inW', out)) (hq : QType s) (hc : ClientInv s) :
-    (SameFlags s'.ep s.ep ∧ s'.ep.clientDroppedQueued ≤ s.ep.clientDroppedQueued ∧ inW' = inW ∧ out = []) ∨
+    (s'.ep.ports = s.ep.ports ∧ SameFlags s'.ep s.ep ∧ s'.ep.clientDroppedQueued ≤ s.ep.clientDroppedQueued ∧ inW' = inW ∧ out = []) ∨
     (∃ ev m, handleEvt s.ep ev = some (s'.ep, m) ∧ out = emitList m ∧ inW' = inW ∧ s.ep.goodbyeSent = false ∧
       (isConnReq ev = true → s.ep.allClientsDropped = false)) ∨
     (∃ m e' em, inW = m :: inW' ∧ out = [] ∧ handleRx s.rxView m = .ok (e', em) ∧
@@ -621,12 +621,12 @@ theorem stepSide_flags (s s' : Side) (inW inW' out : List Msg) (l : Lab)
     (repeat' split at h) <;> first
       | (simp at h; done)
       | (simp only [Option.some.injEq, Prod.mk.injEq] at h; obtain ⟨rfl, rfl, rfl⟩ := h
-         exact Or.inl ⟨⟨rfl, rfl, rfl, rfl, rfl, rfl⟩, Nat.zero_le _, rfl, rfl⟩)
+         exact Or.inl ⟨rfl, ⟨rfl, rfl, rfl, rfl, rfl, rfl⟩, Nat.zero_le _, rfl, rfl⟩)
   all_goals
     (repeat' split at h) <;> first
       | (simp at h; done)
       | (simp only [Option.some.injEq, Prod.mk.injEq] at h; obtain ⟨rfl, rfl, rfl⟩ := h
-         exact Or.inl ⟨⟨rfl, rfl, rfl, rfl, rfl, rfl⟩, Nat.le_refl _, rfl, rfl⟩)
+         exact Or.inl ⟨rfl, ⟨rfl, rfl, rfl, rfl, rfl, rfl⟩, Nat.le_refl _, rfl, rfl⟩)
 
 /-- one side steps: both flag invariants it takes part in are preserved -/
 theorem flag_step_side (x y x' : Side) (wxy wyx inW' out : List Msg) (l : Lab)
@@ -634,7 +634,7 @@ theorem flag_step_side (x y x' : Side) (wxy wyx inW' out : List Msg) (l : Lab)
     (F1 : FlagInv x.ep y.ep wxy) (F2 : FlagInv y.ep x.ep wyx) (hq : QType x) (hc : ClientInv x)
     (hw : ∀ m ∈ wyx, isCtl m = true) :
     FlagInv x'.ep y.ep (wxy ++ out) ∧ FlagInv y.ep x'.ep inW' := by
-  rcases stepSide_flags x x' wyx inW' out l hs hq hc with ⟨sf, hcd, rfl, rfl⟩ | ⟨ev, m, he, rfl, rfl, hg, hr⟩ | ⟨m, e', em, rfl, rfl, he, hep⟩
+  rcases stepSide_flags x x' wyx inW' out l hs hq hc with ⟨_, sf, hcd, rfl, rfl⟩ | ⟨ev, m, he, rfl, rfl, hg, hr⟩ | ⟨m, e', em, rfl, rfl, he, hep⟩
   · simp only [List.append_nil]
     exact ⟨⟨by rw [sf.acd]; exact F1.cf, by rw [sf.ld]; exact F1.lf, by rw [sf.gbs]; exact F1.gb, F1.acf, F1.rcd, F1.cdq,
             by rw [sf.gbs]; exact F1.last, F1.done⟩,
